@@ -22,7 +22,7 @@ COQ_LABELS = ["A_values", "A_support", "A_dim", "B_values", "B_support", "B_dim"
 
 def generate(rng, tier):
     nt, nq = (60, 30) if tier == "quick" else (500, 250)
-    cases = fc.fem_mesh_cases(rng, tier, nt, nq)
+    cases = fc.fem_mesh_cases(rng, tier, nt, nq, far=True)
     # strips of flat "cap" triangles (base 0.3, height h): valid, far from round-off, but with an obtuse angle close to 180 degrees
     for _ in range(6 if tier == "quick" else 40):
         N = rng.randint(2, 8)
